@@ -397,7 +397,12 @@ def classify(m, prop):
     if "probe_active" in fields:
         for kind in ("at", "rt"):
             for x in m["extra_active_" + kind]:
-                owners = OWNERS.get(x["why"], set())
+                owners = set(OWNERS.get(x["why"], set()))
+                # "active" is what the introspection endpoint reports. When the store agrees with the specification (no
+                # projection mismatch at this step) and the endpoint still calls the dead token active, the endpoint's own
+                # verdict is wrong: C09 ("active exactly when ... not expired, revoked, rotated away or killed by replay detection")
+                if "proj" not in fields:
+                    owners.add("C09")
                 if prop in owners:
                     viol = True
                 texts.append(f"after {op}: {kind} #{x['id']} is still active in the implementation; the specification has it dead ({x['why']}) [owner {','.join(sorted(owners)) or '-'}]")
